@@ -354,7 +354,57 @@ func Harness_C14(n int) {
 	symReach("end")
 }
 ''')
-    if "C16" in props:
+    if "C16" in props and g.get("_optimized"):
+        # -optimize-parser: no Memoize, no Statistics - the number of expressions the budget has to be measured
+        # against comes from the reference interpreter (the optimized parser evaluates the same expressions)
+        s.append('''
+func hasMaxErr(err error) bool {
+	for _, m := range errStrings(err) {
+		if len(m) >= 32 && m[len(m)-32:] == "max number of expressions parsed" {
+			return true
+		}
+	}
+	return false
+}
+
+// C16 on a parser generated with -optimize-parser.
+func Harness_C16(n int) {
+	in := symInput(n, true)
+	budget := symU64("budget")
+	symAssume(budget >= 1)
+	%s
+	o := runReal(in, MaxExpressions(budget))
+	symNote(outcomeNote(o))
+	symAssert(!o.panicked, "C16: the budget panic escaped Parse")
+	hit := hasMaxErr(o.err)
+	if hit {
+		symAssert(o.v == nil, "C16: value returned although the budget was exhausted")
+	}
+	if %s {
+		o0 := runReal(in)
+		r := ref.Run(refG, symEntry, in, refConfig())
+		if !r.Panicked && !symLeftRecC16 {
+			symDebug("ref", r.Evals)
+			symAssert(hit == (uint64(r.Evals) > budget), "C16: (-optimize-parser) the budget error is not reported exactly when the parse needs more expressions than the budget")
+		}
+		if !hit {
+			symAssert(symEqual(o.v, o0.v), "C16: value differs from the unbounded parse")
+			symAssert(sameStrings(errStrings(o.err), errStrings(o0.err)), "C16: errors differ from the unbounded parse")
+		}
+	} else {
+		// grammar with inputs on which the unbounded parse does not end: the budgeted parse must end (the engine's
+		// step limit turns a parse that does not into a counterexample that is replayed natively under a timeout)
+		_ = hit
+	}
+	symReach("end")
+}
+
+func Harness_C16reuse(n int) { symReach("end") } // (needs Statistics: standard parsers only)
+''' % (("symAssume(budget <= %d)" % int(g.get("budget_max", 12))) if g.get("nonterminating")
+       else "symAssume(symOr(budget <= %d, budget >= 1<<31))" % int(g.get("budget_max", 24)),
+       "true" if not g.get("nonterminating") else "false"))
+        s.append("const symLeftRecC16 = %s\n" % ("true" if g.get("needs_lr") else "false"))
+    elif "C16" in props:
         s.append('''
 func hasMaxErr(err error) bool {
 	for _, m := range errStrings(err) {
